@@ -152,7 +152,7 @@ var specs = map[string]spec{
 		Rule:      "a state is a bundle (snippet pair x injected errors); transitions = pipeline executions under distinct map orders and insertion orders (counter map_orders_explored); every case is non-trivial",
 		Bounds: map[string]string{
 			"quick":    "78 snippet pairs without errors + adjacent pairs x 7 error sets; 6 insertion orders; map-order deviation bound 2/1",
-			"thorough": "all pairs x all error sets; deviation bound 3/2",
+			"thorough": "all pairs x all error sets; deviation bound 3 (capped at 20000 orders per bundle) for the first insertion order, 1 for the others",
 		},
 		Assumptions: commonAssumptions, Plain: true, QuickStride: 1, ThoroughStride: 1, QuickDeadline: 420, ThoroughDeadline: 3000, OrderSensitive: true,
 	},
